@@ -29,7 +29,11 @@ CLAIMED["C02"] = dict(cat="fault_enumeration", ref="DESIGN.md 3.2",
    text="Crash-point enumeration: for each sampled (experiment, configuration, schedule) the finished transaction log (plain or .gz, written by simulated workers so the record order is schedule dependent) is cut at crash offsets and resumed by a freshly built identical experiment with recording evaluators; quick tier: every record boundary, +-1/+-2 bytes, byte before each newline, three interior offsets per record, n in {0,1}; thorough tier additionally enumerates every byte offset 0..len(F) for a quarter of the logs; second-generation crashes and resumes on simulated workers are sampled. Oracle: resumed run returns normally, Result equals the uninterrupted one, no restored triple is evaluated again, no record is written twice, the file is readable afterwards.",
    note="Trusted base: a crash leaves a byte-prefix of the flushed stream (durability below flush() is out of reach); simulated multiprocessing as C01; experiments/schedules are sampled, only the crash offset dimension is enumerated; one known finding (zero-row triples are re-evaluated) is listed in known_findings.json.",
    tech="deterministic simulation with crash-point enumeration: log written under a seeded schedule, every chosen byte-prefix restarted, history oracle over recording evaluators and the resulting file")
-PENDING = {k: "claimed in DESIGN.md; check under construction in this round (deterministic-simulation engine exists, driver not yet committed)" for k in ("C04","C05","C12")}
+CLAIMED["C12"] = dict(cat="fault_enumeration", ref="DESIGN.md 3.8",
+   text="Delivery and disk clauses only. A simulated HTTP transport replaces urlopen(); for every generated payload (adversarial texts with LF/CRLF/lone CR/other Unicode line boundaries and 2-4 byte characters; small tables in common-dialect CSV/ARFF/LibSVM/Manik) the real HttpSource->_byte_it_->DelimSource path is run for EVERY chunk_size 1..len+1 under identity, gzip and deflate content encodings (the whole delivery space of the public API) plus seeded short-read schedules; lines must equal text.splitlines(); tables are additionally parsed by the real readers after delivery. DiskSink->DiskSource round trips (plain/.gz, all batch settings, several writes) must be identical.",
+   note="NOT decided: the format-grammar clause of C12 (alternative spellings: quote styles, escapes, comments, keyword case) is a statement about a pure parser and is outside this technique. Trusted base: the fake urlopen/response object; payloads are sampled, chunk sizes enumerated exhaustively per payload.",
+   tech="transport simulator with exhaustive segmentation enumeration (chunk size x content encoding) per payload + seeded short reads, differential oracle against whole-text splitlines")
+PENDING = {k: "claimed in DESIGN.md; check under construction in this round (deterministic-simulation engine exists, driver not yet committed)" for k in ("C04","C05")}
 NA = {
  "C06": "SequentialCB is a single-threaded loop whose outputs are a pure function of (environment, learner, mode); no schedule, clock, fault or crash point occurs in the property.",
  "C09": "Ordering/selection filters are pure functions of (input sequence, parameters, seed); nothing for a simulator to schedule or fault.",
